@@ -413,6 +413,7 @@ func c19ResultSet(t *rapid.T) {
 	m, db := faults.New()
 	defer m.Release(db)
 	m.Cols, m.Rows = rs.Cols, rs.Rows
+	m.ReuseBuffers = rapid.Bool().Draw(t, "reusebuffers")
 	tx, err := db.Begin()
 	if err != nil {
 		t.Fatal(err)
